@@ -149,19 +149,49 @@ def run_check(tier, seed):
             ('logic', None, [S, ['load', 'logic', None]], 'scratch-reference'),
             ('logic', None, [S, ['fail_parse_once', 40], ['load', 'logic', None], ['load', 'logic', None]], 'interrupted load then reload'),
         ]
-        jobs_fs2 = [
-            ('logic_base', 'changed', [S, ['load', 'logic_base', None], ['append_item', 'logic_base', new_item], ['load', 'logic_base', None]], 'changed file re-read'),
-            ('logic_base', 'changed', [S, ['append_item', 'logic_base', new_item], ['load', 'logic_base', None]], 'changed-reference'),
+        # histories that change a file between two loads; each runs on its own small scratch library and is compared
+        # with the reference "same change first, then one load in a fresh process"
+        CHAIN = ['logic_base', 'logic', 'nat', 'function', 'set']
+
+        def ax(k):
+            return {"ty": "thm.ax", "name": "verif_c12_new_axiom_%d" % k, "vars": {"A": "bool"}, "prop": "A --> A"}
+        mut_specs = [
+            ('logic_base', [['load', 'logic_base', None]], [['append_item', 'logic_base', ax(0)]], 'changed file re-read'),
+            ('logic', [['load', 'logic', None]], [['append_item', 'logic_base', ax(1)]], 'direct import changed between two loads'),
+            ('nat', [['load', 'nat', None]], [['append_item', 'logic_base', ax(2)]], 'transitive import changed between two loads'),
+            ('set', [['load', 'set', None]], [['append_item', 'nat', ax(3)]], 'import in the middle of the chain changed'),
+            ('nat', [['load', 'function', None]], [['append_item', 'logic', ax(4)]], 'import changed after it was cached through another theory'),
+            ('nat', [['load', 'nat', None]], [['append_item', 'logic_base', ax(5)], ['load', 'logic', None]], 'import changed, a sibling loaded in between'),
+            ('function', [['load', 'function', None], ['load', 'logic', None]], [['append_item', 'logic', ax(6)], ['append_item', 'logic_base', ax(7)]],
+             'two imports changed'),
+            ('nat', [['load', 'nat', None]], [['touch', 'logic_base']], 'import touched only'),
         ]
+        if tier == 'quick':
+            mut_specs = mut_specs[:2] + r.sample(mut_specs[2:], 3)
+        mut_dirs, mut_jobs = [], []
+        for target, pre, change, descr in mut_specs:
+            pair = []
+            for _ in range(2):
+                d = tempfile.mkdtemp(prefix='c12_mut_')
+                mut_dirs.append(d)
+                os.makedirs(os.path.join(d, 'library'))
+                os.makedirs(os.path.join(d, 'logic'))
+                for n in CHAIN:
+                    shutil.copy(os.path.join(REPO, 'library', n + '.json'), os.path.join(d, 'library', n + '.json'))
+                pair.append(['scratch', d])
+            file_ops = [op for op in change if op[0] != 'load']
+            mut_jobs.append((target, descr, [pair[0]] + pre + change + [['load', target, None]], [pair[1]] + file_ops + [['load', target, None]]))
         all_jobs = jobs + fs_jobs
         with ThreadPoolExecutor(max_workers=NCPU) as ex:
             results = list(ex.map(lambda j: run_history(j[2]), all_jobs))
-        # these two modify the scratch copy: run after the others, sequentially
-        results2 = [run_history(j[2]) for j in jobs_fs2]
+        with ThreadPoolExecutor(max_workers=NCPU) as ex:
+            mut_results = list(ex.map(lambda j: (run_history(j[2]), run_history(j[3])), mut_jobs))
         # cycle detection on a second scratch edit
         cyc = run_history([S, ['set_imports', 'logic_base', ['logic']], ['load', 'logic', None]])
     finally:
         shutil.rmtree(scratch, ignore_errors=True)
+        for d in locals().get('mut_dirs', []):
+            shutil.rmtree(d, ignore_errors=True)
 
     # ---- judge
     ref = {}
@@ -201,20 +231,28 @@ def run_check(tier, seed):
                           key='C12:history-dependence:%s' % descr.split(' ')[0])
         else:
             n_ok += 1
-    # changed file must be re-read
-    a, b = last_load(results2[0]), last_load(results2[1])
-    if not (a and b and a[3] == 'ok' and b[3] == 'ok' and a[4] == b[4]):
-        run.violation('property', 'a changed theory file is not re-read', dict(after_change=a, reference=b), key='C12:stale-cache')
-    else:
-        n_ok += 1
-    run.count(('changed-file',), nontrivial=True)
+    # a changed file (the theory's own or an import's) must be re-read
+    for (target, descr, hist, ref_hist), (res_h, res_r) in zip(mut_jobs, mut_results):
+        a, b = last_load(res_h), last_load(res_r)
+        run.stat('history:mutation:' + descr)
+        run.count(('mutation', target, descr), nontrivial=True)
+        if b is None or b[3] != 'ok':
+            run.stat('mutation-reference-fails')
+            continue
+        if not (a and a[3] == 'ok' and a[4] == b[4]):
+            run.violation('property', 'load_theory(%s) after "%s" differs from a fresh process on the same files' % (target, descr),
+                          dict(theory=target, history=hist[1:], reference_history=ref_hist[1:], after_history=a[:5] if a else None, fresh=b[:5],
+                               sizes=a[5] if a else None, fresh_sizes=b[5], note='the scratch directory in the history is a copy of library/{%s}.json' % ','.join(CHAIN)),
+                          key='C12:stale-cache')
+        else:
+            n_ok += 1
     cl = last_load(cyc)
     if cl is None or cl[3] != 'exc':
         run.violation('property', 'an import cycle is not reported as an error', dict(result=cyc), key='C12:cycle')
     else:
         n_ok += 1
     run.count(('cycle',), nontrivial=True)
-    run.cov['search'] = dict(histories=len(all_jobs) + 3, agree_with_reference=n_ok, theories=targets)
+    run.cov['search'] = dict(histories=len(all_jobs) + 1 + 2 * len(mut_jobs), agree_with_reference=n_ok, theories=targets)
     run.sample(dict(history=all_jobs[len(targets)][2], result=[x[:5] for x in results[len(targets)]]))
     run.cov['rule'] = ('histories per theory: reference (fresh process), import of a side-effect module first, load of another theory first, '
                        'load twice, load with a limit after other loads, missing limit, touch / modify / interrupt on a scratch library, '
